@@ -544,7 +544,7 @@ fn synth_spki_cases(_: &RunCfg) -> Vec<SynthSpki> {
 pub fn def() -> PropertyDef {
 	PropertyDef {
 		id: "C11",
-		rule: "Exhaustive matrix: every fixture key (OpenSSL-generated PKCS#8 v1 for RSA-2048/3072/4096, P-256/384/521, Ed25519; SEC1 / PKCS#1 variants) x 9 loading entry points x every public algorithm for the explicit ones, matching and mismatching; keys generated by rcgen under this back end, exported as DER or PEM and reloaded through every entry point. Oracle: same raw public key and SPKI (OpenSSL's encoding is the reference), same key family, algorithm as told/determined, a CSR signed by the reloaded key verifies under the original public key (OpenSSL), save-and-load-again, mismatched pairs are Err and never panic; exported SPKI has the RFC AlgorithmIdentifier, decodes in OpenSSL to the same key and parses back; algorithm equality/hash/from_oid over all pairs of statics. Non-trivial = entry point other than try_from(&[u8]), legacy encoding, or mismatched pair.",
+		rule: "Exhaustive matrix: every fixture key (OpenSSL-generated PKCS#8 v1 for RSA-2048/3072/4096, P-256/384/521, Ed25519; SEC1 / PKCS#1 variants) x 9 loading entry points x every public algorithm for the explicit ones, matching and mismatching; keys generated by rcgen under this back end, exported as DER or PEM and reloaded through every entry point. Oracle: same raw public key and SPKI (OpenSSL's encoding is the reference), same key family, algorithm as told/determined, a CSR signed by the reloaded key verifies under the original public key (OpenSSL), save-and-load-again, mismatched pairs are Err and never panic; exported SPKI has the RFC AlgorithmIdentifier, decodes in OpenSSL to the same key and parses back, and its PEM export is the same bytes under the PUBLIC KEY label; algorithm equality/hash/from_oid over all pairs of statics. Non-trivial = entry point other than try_from(&[u8]), legacy encoding, or mismatched pair.",
 		assumptions: vec!["OpenSSL key parsing, SPKI encoding and signature verification", "RSA keys are fixtures (ring cannot generate RSA); aws-lc-rs RSA generation is sampled sparsely because of its cost"],
 		subs: vec![
 			sweep_sub("fixture-matrix", matrix, check_matrix),
